@@ -68,6 +68,8 @@ class C09Antenna(Machine):
                 # use two different sample steps
                 cfg["taps"] = [1.0]
                 cfg["delay_steps"] = rng.pick([2, 4, 6])
+                # sometimes a lead-in that is only just long enough for the delay line
+                cfg["lead_in"] = rng.pick([cfg["delay_steps"] + 1, 25])
             else:
                 cfg["taps"] = rng.pick([[1.0], [0.5], [0.0, 1.0], [0.25, 0.5, 0.25], [1.0, -1.0]])
         if kind == "dipole":
